@@ -11,9 +11,12 @@ Definition actions_of_ctx (sc : scenario) (c : Z) : list Z :=
   dedup (flat_map (fun x => if Z.eqb (fst (fst x)) c then map a_id (i_actions (snd x)) else []) (s_cfg sc)).
 Definition retarget (ev : event) : event := mkEv 0 (e_action ev) (e_kind ev) (e_value ev) (e_state ev) (e_elapsed ev) (e_fired ev).
 
+(* "holding the component": read from the world, not from the registry *)
+Definition has_of (c e : Z) (o : out) : bool :=
+  existsb (fun m => match m with mi c' e' _ has => Z.eqb c c' && Z.eqb e e' && has end) (x_mirror o).
 Definition judge_frame (sc : scenario) (before o : out) : list (Z * bool) :=
   concat (map (fun c =>
-    let hs := filter (fun e => got_of c e before) (s_ents sc) in
+    let hs := filter (fun e => has_of c e before) (s_ents sc) in
     let acts := actions_of_ctx sc c in
     let evs_of (e : Z) := map retarget (filter (fun ev => Z.eqb (e_target ev) e && memz (e_action ev) acts) (x_main o)) in
     (* nobody outside the holders receives anything *)
